@@ -1346,6 +1346,25 @@ def check_param_forwarding(prog, rep, callers=None, rule='P-forward-name'):
                     bound |= keys_
             if star_unknown:
                 continue
+            # crossed hand-over: the caller's own parameters p and q, which
+            # the callee also calls p and q, are bound the other way round
+            amap_ = dict(zip(ps, node.args))
+            amap_.update({k.arg: k.value for k in node.keywords if k.arg})
+            for p_ in sorted(amap_):
+                a_ = amap_[p_]
+                if not (isinstance(a_, ast.Name) and a_.id != p_ and
+                        a_.id in own and a_.id in amap_ and p_ in own):
+                    continue
+                b_ = amap_[a_.id]
+                if isinstance(b_, ast.Name) and b_.id == p_ and p_ < a_.id:
+                    n += 1
+                    rep.violation(
+                        rule, fn.qualname, '%s(...) : parameters %s / %s'
+                        % (src(mod, node.func), p_, a_.id),
+                        '%s hands its parameter "%s" to the parameter "%s" '
+                        'of %s and its "%s" to "%s": the two are crossed'
+                        % (fn.qualname, a_.id, p_, callee.qualname, p_,
+                           a_.id), line=node.lineno, file=mod.path)
             for p in callee.all_params:
                 if p == 'self' or p not in own:
                     continue
